@@ -111,6 +111,16 @@ def impl(case):
                 sc.append(bool(v))
             res["in_image_scalar"] = sc
             res["in_image_scalar_0d"] = types_ok
+            # other scalar forms of the same point: 0-d arrays and numpy scalars answer like Python floats
+            forms = []
+            for k in range(min(3, len(pix))):
+                for nm_, conv in (("0d", lambda v: np.array(float(v))), ("np", lambda v: np.float64(v))):
+                    try:
+                        v = w.in_image(*[conv(x[k]) for x in world])
+                        forms.append([nm_, bool(v) == sc[k] and np.ndim(v) == 0])
+                    except Exception as e:
+                        forms.append([nm_, "raised " + type(e).__name__])
+            res["in_image_forms"] = forms
             # in_image decides with its own masking settings: keywords meant for invert must not change the answer
             alt = []
             for kw2 in ({"fill_value": 0.0}, {"fill_value": 1.0, "with_bounding_box": False}):
@@ -196,6 +206,9 @@ def oracle(case, res):
             if a_ != res["in_image"]:
                 out.append(("in_image_kw", "in_image with fill_value / with_bounding_box keywords answers %s, without them %s" % (a_, res["in_image"])))
                 break
+        badf = [f_ for f_ in res.get("in_image_forms", []) if f_[1] is not True]
+        if badf:
+            out.append(("in_image_scalar", "in_image of a scalar point given as a 0-d array / numpy scalar: %s (the Python-float answer is %s)" % (badf[:3], res["in_image_scalar"][:3])))
         if res["in_image_shape"] != [npts] or not res["in_image_scalar_0d"]:
             out.append(("in_image_shape", "in_image shape %s for %d points / scalar answer not 0-d" % (res["in_image_shape"], npts)))
     return out[:4]
